@@ -16,6 +16,7 @@ pub mod xrate;
 pub mod tx;
 pub mod acctlife;
 pub mod payout;
+pub mod roles;
 
 pub fn lookup(name: &str) -> Option<fn(&str) -> String> {
     Some(match name {
@@ -42,6 +43,7 @@ pub fn lookup(name: &str) -> Option<fn(&str) -> String> {
         "txend" => tx::run_end,
         "acctlife" => acctlife::run,
         "payout" => payout::run,
+        "roles" => roles::run,
         _ => return None,
     })
 }
